@@ -555,11 +555,13 @@ func (e *env) step(s mbt.Step) *failure {
 		}
 	case "RemoveRange", "Thin":
 		n := 0
-		from, period, keep := s.Int("from"), s.Int("period"), s.Int("keep")
+		from, period, lo, hi := s.Int("from"), s.Int("period"), s.Int("lo"), s.Int("hi")
 		e.touched(from, s.Int("cnt"))
 		err := e.setRange(from, s.Int("cnt"), s.Bool("asc"), func(k int) error {
-			if act == "Thin" && (k-from)%period < keep {
-				return nil
+			if o := 0; act == "Thin" {
+				if o = (k - from) % period; o < lo || o >= hi {
+					return nil
+				}
 			}
 			_, found, err := e.t.Remove(e.keys[k])
 			if found {
@@ -568,7 +570,7 @@ func (e *env) step(s mbt.Step) *failure {
 			return err
 		})
 		if err != nil || n != s.Int("reply") {
-			return e.fail(act, "reply", fmt.Sprintf("%s: %d keys removed, error %v; spec %d", mbt.JS(map[string]any{"from": from, "cnt": s.Int("cnt"), "period": period, "keep": keep}), n, err, s.Int("reply")))
+			return e.fail(act, "reply", fmt.Sprintf("%s: %d keys removed, error %v; spec %d", mbt.JS(map[string]any{"act": act, "from": from, "cnt": s.Int("cnt"), "period": period, "lo": lo, "hi": hi}), n, err, s.Int("reply")))
 		}
 	case "SaveVersion":
 		h, v, err := e.t.SaveVersion()
